@@ -210,7 +210,46 @@ def run(prog, rep):
         okf = not untested
     rep.ob("C10.2", fr, "free", okf, "p_socket_free closes once, behind the closed test of the close protocol (so an already closed socket is not closed twice)" if okf else
            "p_socket_free does not close exactly once behind the closed test of p_socket_close", fr.loc[0])
-    rep.floor("C10.2", 2)
+    # shutdown wiring: the direction handed to shutdown() is the one asked for - both -> SHUT_RDWR, read -> SHUT_RD, write -> SHUT_WR,
+    # neither -> TRUE without a system call - evaluated path by path under each argument pair; after a successful shutdown of both
+    # directions the socket reports itself not connected
+    sh = u.fn("p_socket_shutdown")
+    spn = sh.param_names()
+    shc = [c for (b, i, c) in sh.calls() if c.get("callee") == "shutdown"]
+    SHUT = {(1, 1): 2, (1, 0): 0, (0, 1): 1}
+    shbad = []
+    if len(spn) >= 3 and shc:
+        for (rd, wr) in ((1, 1), (1, 0), (0, 1), (0, 0)):
+            seenhow = []
+
+            def ss(st, b, i, stmt, seenhow=seenhow, rd=rd, wr=wr):
+                for c in calls(stmt):
+                    if c.get("callee") == "shutdown" and len(c["args"]) >= 2:
+                        seenhow.append((guards.eval_const(c["args"][1], st), line(c)))
+                if stmt["k"] == "ret":
+                    rv = guards.eval_const(stmt.get("e"), st)
+                    if (rd, wr) == (0, 0) and guards.lookup(st, "%s->closed" % spn[0]) == 0 and rv != 1:
+                        shbad.append((line(stmt), "shutdown of neither direction returns %s, expected TRUE" % rv))
+                    if (rd, wr) == (1, 1) and rv == 1 and guards.lookup(st, "%s->connected" % spn[0]) != 0:
+                        shbad.append((line(stmt), "after both directions were shut down successfully the socket still reports itself connected"))
+                    return []
+                return [guards.transfer(st, stmt)]
+            f0 = guards.add_fact(guards.add_fact(guards.EMPTY, spn[1], "==", rd), spn[2], "==", wr)
+            Flow(sh, [f0], ss, lambda st, b, to, on: guards.edge_assume(st, b, on)).run()
+            if (rd, wr) == (0, 0):
+                if seenhow:
+                    shbad.append((seenhow[0][1], "shutdown () is called although neither direction was asked for"))
+            else:
+                if not seenhow:
+                    shbad.append((sh.loc[0], "shutdown () is not called for read=%d write=%d" % (rd, wr)))
+                for (hw, ln_) in seenhow:
+                    if hw != SHUT[(rd, wr)]:
+                        shbad.append((ln_, "read=%d write=%d reaches shutdown () with direction %s instead of %d (%s): %s" % (
+                            rd, wr, hw, SHUT[(rd, wr)], {2: "SHUT_RDWR", 0: "SHUT_RD", 1: "SHUT_WR"}[SHUT[(rd, wr)]],
+                            "a direction the caller wanted to keep is closed" if hw in (0, 1, 2) else "the direction is not a constant on this path")))
+    rep.ob("C10.2", sh, "shutdown", bool(shc) and not shbad, "shutdown () gets SHUT_RDWR / SHUT_RD / SHUT_WR exactly for both / read / write, nothing for neither, and clears connected after both" if (shc and not shbad)
+           else ("line %d: %s" % shbad[0] if shbad else "the shutdown () call was not found"), shbad[0][0] if shbad else sh.loc[0])
+    rep.floor("C10.2", 3)
 
     # ---- C10.3 non-blocking never waits -------------------------------------
     n3 = 0
@@ -640,6 +679,13 @@ _run_clauses = run
 def run(prog, rep):
     _run_clauses(prog, rep)
     from plint.wiring import check_zero_init, check_error_contract
+    from plint.wiring import result_tests
+    _ru = prog.unit("psocket.c")
+    _nrt, _brt = result_tests(_ru)
+    rep.ob("C10.5", _brt[0][0] if _brt else sorted(_ru.functions.values(), key=lambda f_: f_.loc[0])[0], "result-tests", _nrt >= 15 and not _brt,
+           "%d tests of system call results put 0 (or a valid descriptor) on the success side" % _nrt if (_nrt >= 15 and not _brt) else
+           ("line %d: `%s` in %s counts a successful call as failed (or descriptor 0 as no descriptor): what the call did in the kernel is not recorded in the object, or a valid "
+            "descriptor is dropped" % (line(_brt[0][1]), _brt[0][2], _brt[0][0].name) if _brt else "fewer result tests than expected (%d)" % _nrt), _brt[0][1] if _brt else _ru.functions[sorted(_ru.functions)[0]].loc[0])
     check_error_contract(rep, "C10.1", prog, ['psocket.c'], 50)
     check_zero_init(rep, "C10.5", prog, ['psocket.c'], 1)
 
@@ -647,6 +693,12 @@ def run(prog, rep):
 RENAME_LOCALS = ['src/psocket.c']
 
 SELFTEST = [
+    dict(id="keepalive-success-read-as-failure", file="src/psocket.c", expect="C10.5",
+         old="SO_KEEPALIVE, &value, sizeof (value)) < 0) {", new="SO_KEEPALIVE, &value, sizeof (value)) <= 0) {"),
+    dict(id="shutdown-read-only-closes-both", file="src/psocket.c", expect="C10.2", count=1,
+         old="#ifndef P_OS_WIN\n\tif (shutdown_read == TRUE && shutdown_write == TRUE)\n\t\thow = SHUT_RDWR;", new="#ifndef P_OS_WIN\n\tif (shutdown_read == TRUE || shutdown_write == TRUE)\n\t\thow = SHUT_RDWR;"),
+    dict(id="shutdown-both-stays-connected", file="src/psocket.c", expect="C10.2",
+         old="\tif (shutdown_read == TRUE && shutdown_write == TRUE)\n\t\tsocket->connected = FALSE;\n", new=""),
     dict(id="wait-ignores-foreign-wakeup", file="src/psocket.c", expect="C10.4",
          old="\t\tif (evret == 1)\n\t\t\treturn TRUE;\n\t\telse if (evret == 0) {", new="\t\tif (evret == 1 && (pfd.revents & pfd.events) == 0)\n\t\t\tcontinue;\n\n\t\tif (evret == 1)\n\t\t\treturn TRUE;\n\t\telse if (evret == 0) {", count=2),
     dict(id="new-from-fd-keeps-mode", file="src/psocket.c", expect="C10.3",
